@@ -110,7 +110,7 @@ func rpDevice(r rp.RelyingParty, scopes []string, approve func(deviceCode, userC
 	approve(da.DeviceCode, da.UserCode)
 	ctx, cancel := context.WithTimeout(ctxBG, 2*time.Minute)
 	defer cancel()
-	return rp.DeviceAccessToken(ctx, da.DeviceCode, time.Millisecond, r)
+	return rp.DeviceAccessToken(ctx, da.DeviceCode, 200*time.Millisecond, r)
 }
 
 // rpBrowser drives AuthURLHandler and CodeExchangeHandler of a cookie-handling RP like a browser: the
